@@ -67,6 +67,9 @@ def case(spec):
     try:
         rt.seed_rng(0)
         child = child_def(spec, idx)
+        if spec.get("reuse_definition"):
+            # the same definition object was used before, by a backtest in the other position mode
+            bt.Backtest(child, data, integer_positions=not integer, progress_bar=False, additional_data={k: v for k, v in ad.items() if k not in ("pw", "pn")}).run()
         sched = SCHEDULES[spec["schedule"]]
         if sched is None:
             palgos = []
@@ -92,7 +95,7 @@ def case(spec):
         nested = bt.Backtest(parent, data, initial_capital=float(spec.get("capital", 1e6)), commissions=T.fee_fn(fee), integer_positions=integer, progress_bar=False, additional_data=dict(ad))
         nested.run()
         rt.seed_rng(0)
-        alone = bt.Backtest(child_def(spec, idx), data, commissions=T.fee_fn(fee), integer_positions=integer, progress_bar=False, additional_data={k: v for k, v in ad.items() if k not in ("pw", "pn")})
+        alone = bt.Backtest(child if spec.get("reuse_definition") else child_def(spec, idx), data, commissions=T.fee_fn(fee), integer_positions=integer, progress_bar=False, additional_data={k: v for k, v in ad.items() if k not in ("pw", "pn")})
         alone.run()
     except Exception as e:
         if rt.classify(e) == "guard":
@@ -170,6 +173,13 @@ def specs(tier, seed):
                     continue
                 for sc in ("once", "rotate"):
                     out.append({"child": {"gate": g, "select": "momentum", "weigh": "equal"}, "child_tickers": kids, "tie": list(tie), "schedule": sc, "integer": False, "fee": None, "spread": None, "capital": 1e6, "data": "d25", "alpha": "exact", "late": False})
+    # one definition object that has been through a backtest in the other position mode before it is
+    # compared nested against stand-alone (Backtest works on copies: the definition must be unaffected)
+    for g in ("daily", "weekly"):
+        for body in ({"select": "these", "weigh": "specified"}, {"select": "all", "weigh": "equal"}):
+            for integer in (True, False):
+                for sc in ("once", "rotate"):
+                    out.append({"child": dict(body, gate=g), "reuse_definition": True, "schedule": sc, "integer": integer, "fee": None, "spread": None, "capital": 5e3, "data": "d25", "alpha": "exact", "late": False})
     # a notional-weighted (fixed-income) parent publishes its sub-strategies' indices too
     for g in ("daily", "weekly", "monthly"):
         for body in ({"select": "these", "weigh": "specified"}, {"select": "all", "weigh": "equal"}):
